@@ -343,72 +343,10 @@ func c01(c *Ctx) {
 
 	c.R.Rule("R1.8", "the template-name annotation is authoritative: RenderComposedResourceMetadata stamps it on every path that names the resource, and it is stamped after the from-XR patches", 3,
 		"both composers re-associate live composed resources with templates / desired resources by this annotation only: a stale or overwritten value files the resource under another name, which deletes and re-creates it (or leaks and duplicates it) on every reconcile")
-	if rm := c.fn(pkgComposite, "RenderComposedResourceMetadata"); rm != nil {
-		stamp := calls(rm, xp+pkgComposite+".SetCompositionResourceName")
-		if len(stamp) == 0 {
-			c.R.Unknown(load.FuncName(rm)+": stamp", c.pos(rm.Pos()), "SetCompositionResourceName is not called")
-		} else {
-			// the only way past the stamp is an empty name
-			var noName []cfgx.Edge
-			for _, cf := range findCmps(rm, true, func(x, y ssa.Value) bool {
-				s, ok := cfgx.ConstString(y)
-				return ok && s == "" && flow.Root(x) == ssa.Value(rm.Params[2])
-			}) {
-				noName = append(noName, cf.Holds...)
-			}
-			through := map[*ssa.BasicBlock]bool{}
-			for _, st := range stamp {
-				through[st.Block()] = true
-				c.R.Check(cfgx.CallArgs(st)[1] == ssa.Value(rm.Params[2]) && flow.Root(underIface(cfgx.CallArgs(st)[0])) == ssa.Value(rm.Params[0]), site(st)+" stamps-name", c.pos(st.Pos()), "stamps the supplied name on the rendered resource", "the annotation stamped is not the supplied name on the supplied resource")
-			}
-			seen := cfgx.ReachFromEntry(rm, through, noName)
-			bad := false
-			var at ssa.Instruction = stamp[0]
-			for b := range seen {
-				if through[b] {
-					continue
-				}
-				if r, ok := b.Instrs[len(b.Instrs)-1].(*ssa.Return); ok && classifyErr(cfgx.ReturnValue(r, 0)) != "nonnil" || ok && isWrapOfCall(cfgx.ReturnValue(r, 0)) {
-					bad = true
-					at = r
-				}
-			}
-			c.R.Check(!bad && len(noName) > 0, load.FuncName(rm)+": stamped unless unnamed", c.pos(at.Pos()), "every successful render passes the stamp, except for an empty name", "a named resource can be rendered without (re)stamping crossplane.io/composition-resource-name: an existing value wins")
-		}
-	}
-	// the stamp itself overwrites: SetCompositionResourceName writes the annotation on every path
-	if sn := c.fn(pkgComposite, "SetCompositionResourceName"); sn != nil && len(sn.Params) == 2 {
-		adds := calls(sn, xprt+"meta.AddAnnotations")
-		through := map[*ssa.BasicBlock]bool{}
-		named := false
-		for _, a := range adds {
-			through[a.Block()] = true
-			if flow.Root(underIface(cfgx.CallArgs(a)[0])) == ssa.Value(sn.Params[0]) {
-				for _, b := range sn.Blocks {
-					for _, in := range b.Instrs {
-						if mu, ok := in.(*ssa.MapUpdate); ok && flow.Default.Any(mu.Value, func(v ssa.Value) bool { return v == ssa.Value(sn.Params[1]) }) {
-							named = true
-						}
-					}
-				}
-			}
-		}
-		bad := len(adds) == 0
-		var at ssa.Instruction
-		for b := range cfgx.ReachFromEntry(sn, through, nil) {
-			if r, ok := b.Instrs[len(b.Instrs)-1].(*ssa.Return); ok && !through[b] {
-				bad, at = true, r
-			}
-		}
-		p := sn.Pos()
-		if at != nil {
-			p = at.Pos()
-		}
-		c.R.Check(!bad && named, load.FuncName(sn)+": always overwrites", c.pos(p), "the helper writes the supplied name into the annotation on every path", "SetCompositionResourceName can return without writing the supplied name: an annotation the rendered body already carries wins, and the resource is filed under another template")
-	}
+	stampRules(c)
 	ptRenderOrder(c, pt)
 
-	c.R.Rule("R1.9", "the managed-fields upgrade recognises an upgraded object whatever the order of its managers", 2,
+	c.R.Rule("R1.9", "the managed-fields upgrade recognises an upgraded object whatever the order of its managers", 1,
 		"an upgraded composed resource whose own manager entry is not the last one is taken for not upgraded: its managed fields are cleared and re-applied on every reconcile - the steady state never stops writing")
 	if up := c.method(pkgComposite, "PatchingManagedFieldsUpgrader", "Upgrade"); up != nil {
 		stickyFlags(c, up)
@@ -681,5 +619,73 @@ func nameGeneratorRules(c *Ctx) {
 				c.R.Check(flow.Strict.Any(probe, func(v ssa.Value) bool { return v == nm }), site(sn)+" probed-name", c.pos(sn.Pos()), "the name set is the name whose availability was probed", "the name that is set is not the one that was probed")
 			}
 		}
+	}
+}
+
+// stampRules: RenderComposedResourceMetadata stamps the template-name annotation on
+// every path that names the resource, and the stamp itself overwrites.
+func stampRules(c *Ctx) {
+	if rm := c.fn(pkgComposite, "RenderComposedResourceMetadata"); rm != nil {
+		stamp := calls(rm, xp+pkgComposite+".SetCompositionResourceName")
+		if len(stamp) == 0 {
+			c.R.Unknown(load.FuncName(rm)+": stamp", c.pos(rm.Pos()), "SetCompositionResourceName is not called")
+		} else {
+			// the only way past the stamp is an empty name
+			var noName []cfgx.Edge
+			for _, cf := range findCmps(rm, true, func(x, y ssa.Value) bool {
+				s, ok := cfgx.ConstString(y)
+				return ok && s == "" && flow.Root(x) == ssa.Value(rm.Params[2])
+			}) {
+				noName = append(noName, cf.Holds...)
+			}
+			through := map[*ssa.BasicBlock]bool{}
+			for _, st := range stamp {
+				through[st.Block()] = true
+				c.R.Check(cfgx.CallArgs(st)[1] == ssa.Value(rm.Params[2]) && flow.Root(underIface(cfgx.CallArgs(st)[0])) == ssa.Value(rm.Params[0]), site(st)+" stamps-name", c.pos(st.Pos()), "stamps the supplied name on the rendered resource", "the annotation stamped is not the supplied name on the supplied resource")
+			}
+			seen := cfgx.ReachFromEntry(rm, through, noName)
+			bad := false
+			var at ssa.Instruction = stamp[0]
+			for b := range seen {
+				if through[b] {
+					continue
+				}
+				if r, ok := b.Instrs[len(b.Instrs)-1].(*ssa.Return); ok && classifyErr(cfgx.ReturnValue(r, 0)) != "nonnil" || ok && isWrapOfCall(cfgx.ReturnValue(r, 0)) {
+					bad = true
+					at = r
+				}
+			}
+			c.R.Check(!bad && len(noName) > 0, load.FuncName(rm)+": stamped unless unnamed", c.pos(at.Pos()), "every successful render passes the stamp, except for an empty name", "a named resource can be rendered without (re)stamping crossplane.io/composition-resource-name: an existing value wins")
+		}
+	}
+	// the stamp itself overwrites: SetCompositionResourceName writes the annotation on every path
+	if sn := c.fn(pkgComposite, "SetCompositionResourceName"); sn != nil && len(sn.Params) == 2 {
+		adds := calls(sn, xprt+"meta.AddAnnotations")
+		through := map[*ssa.BasicBlock]bool{}
+		named := false
+		for _, a := range adds {
+			through[a.Block()] = true
+			if flow.Root(underIface(cfgx.CallArgs(a)[0])) == ssa.Value(sn.Params[0]) {
+				for _, b := range sn.Blocks {
+					for _, in := range b.Instrs {
+						if mu, ok := in.(*ssa.MapUpdate); ok && flow.Default.Any(mu.Value, func(v ssa.Value) bool { return v == ssa.Value(sn.Params[1]) }) {
+							named = true
+						}
+					}
+				}
+			}
+		}
+		bad := len(adds) == 0
+		var at ssa.Instruction
+		for b := range cfgx.ReachFromEntry(sn, through, nil) {
+			if r, ok := b.Instrs[len(b.Instrs)-1].(*ssa.Return); ok && !through[b] {
+				bad, at = true, r
+			}
+		}
+		p := sn.Pos()
+		if at != nil {
+			p = at.Pos()
+		}
+		c.R.Check(!bad && named, load.FuncName(sn)+": always overwrites", c.pos(p), "the helper writes the supplied name into the annotation on every path", "SetCompositionResourceName can return without writing the supplied name: an annotation the rendered body already carries wins, and the resource is filed under another template")
 	}
 }
